@@ -23,6 +23,7 @@ type c01Case struct {
 	DecodedParent bool        `json:"decoded_parent,omitempty"` // countersign a decoded (not constructed) parent
 	RawBody       bool        `json:"raw_body,omitempty"`       // the caller supplies Headers.RawProtected (a non-canonical encoding of the same map)
 	OpaqueKeys    bool        `json:"opaque_keys,omitempty"`    // signers are built over opaque crypto.Signer wrappers (HSM / KMS style)
+	Reentrant     bool        `json:"reentrant,omitempty"`      // every key runs other library operations between being handed its bytes and reading them
 }
 
 // revChooser encodes maps in reverse entry order with minimal heads: a valid
@@ -191,6 +192,23 @@ func checkC01(c c01Case) error {
 		}
 		stats.Class("opaque-crypto-signers")
 	}
+	factory := signerFactory(libFactory)
+	if c.Reentrant {
+		for i := range ss {
+			ss[i] = reentrantSigner{ss[i]}
+		}
+		for i := range vs {
+			vs[i] = reentrantVerifier{vs[i]}
+		}
+		factory = func(km refcose.KeyMat, where string) (cose.Signer, cose.Verifier, error) {
+			s, v, err := libFactory(km, where)
+			if err != nil {
+				return nil, nil, err
+			}
+			return reentrantSigner{s}, reentrantVerifier{v}, nil
+		}
+		stats.Class("keys-run-other-library-operations")
+	}
 	ext := spec.Ext()
 	var m *libMsg
 	if c.Helper && spec.Kind != refcose.KSign && len(spec.Groups) == 0 {
@@ -247,7 +265,7 @@ func checkC01(c c01Case) error {
 	if target.headers().Unprotected == nil {
 		target.headers().Unprotected = cose.UnprotectedHeader{}
 	}
-	if err := attachGroups(target.headers().Unprotected, spec.Groups, target.parent, "msg", libFactory); err != nil {
+	if err := attachGroups(target.headers().Unprotected, spec.Groups, target.parent, "msg", factory); err != nil {
 		if err == errSkip {
 			return nil
 		}
@@ -264,7 +282,7 @@ func checkC01(c c01Case) error {
 					return sig
 				}
 				return *sig
-			}, fmt.Sprintf("sig[%d]", i), libFactory); err != nil {
+			}, fmt.Sprintf("sig[%d]", i), factory); err != nil {
 				if err == errSkip {
 					return nil
 				}
@@ -359,6 +377,7 @@ func TestC01_Random(t *testing.T) {
 		c.DecodedParent = rapid.Bool().Draw(rt, "decoded-parent")
 		c.RawBody = rapid.IntRange(0, 4).Draw(rt, "raw-body") == 0
 		c.OpaqueKeys = rapid.IntRange(0, 4).Draw(rt, "opaque-keys") == 0
+		c.Reentrant = rapid.IntRange(0, 3).Draw(rt, "reentrant") == 0
 		stats.Eval()
 		judge(rt, "c01", c, checkC01)
 	})
